@@ -388,7 +388,8 @@ fn ctx_summary(ctx: &mut PreprocessorContext) -> String {
     labels.sort();
     let mut fns: Vec<String> = ctx.fn_map.iter().map(|(k, v)| format!("{}={}", k, v)).collect();
     fns.sort();
-    let mut macros: Vec<String> = ctx.macro_map.iter().map(|(k, v)| format!("{}={}", k, v)).collect();
+    // (names only: what a macro is stored as is the assembler's own business)
+    let mut macros: Vec<String> = ctx.macro_map.keys().cloned().collect();
     macros.sort();
     let mut nest: Vec<String> = ctx.macro_nesting_counter.iter().cloned().collect();
     nest.sort();
